@@ -37,6 +37,20 @@ class _AttrpathEntry:
     after: list[Any] | None = None
 
 
+def _ends_in_line_comment(item: Any) -> bool:
+    """Tell whether a rendered binding ends in a `#` comment."""
+    from nix_manipulator.expressions.comment import MultilineComment
+
+    binding = getattr(item, "binding", item)
+    for holder in (item, binding, getattr(binding, "value", None)):
+        for trivia in getattr(holder, "after", None) or ():
+            if isinstance(trivia, Comment) and not isinstance(
+                trivia, MultilineComment
+            ):
+                return True
+    return False
+
+
 def _merge_attrpath_sets(target: "AttributeSet", incoming: "AttributeSet") -> None:
     """Merge attrpath-derived nested sets while preserving leaf bindings."""
     for item in incoming.values:
@@ -367,6 +381,13 @@ class AttributeSet(TypedExpression):
         if not multiline and any("\n" in rendered for rendered in rendered_bindings):
             # A binding that spans several lines cannot sit in a one-line
             # set: the next parse would see a multi-line set and re-flow it.
+            multiline = True
+
+        if not multiline and any(
+            _ends_in_line_comment(item) for item in render_values
+        ):
+            # On one line a `#` comment would swallow what follows it, the
+            # closing brace included.
             multiline = True
 
         if multiline:
